@@ -282,6 +282,11 @@ class RefParser:
                         if not self.starts_decl_spec():
                             raise RefReject("declaration expected in K&R declaration list")
                         knr.extend(self.declaration_or_function(allow_function=False))
+                    # 6.9.1p6: the declaration list declares only identifiers of the identifier list (a constraint:
+                    # a program that declares anything else there is not valid, whatever its syntax)
+                    listed = {n.concretize() if isinstance(n, SymStr) else n for n in func[1][1]}
+                    if any(n not in listed for n in self.scope.stack[-1]):
+                        raise RefReject("declaration list declares an identifier that is not a parameter")
                 params = func[1]
                 if params is not None:
                     if params[0] == "idlist":
